@@ -169,6 +169,110 @@ func (w *clientWorld) callOK(what string, id uint32, impl *probe.Impl, arg int32
 	}
 }
 
+// activationWindow: Service.Add releases the service lock while the new
+// object's Activate runs. Whatever completes inside that window - a child
+// added by the Activate itself, the removal of another object, the addition
+// of another object - must still hold once the activation is over.
+func activationWindow() {
+	x := start()
+	x.add()
+	x.add()
+	if len(x.objs) != 2 {
+		return
+	}
+	kind := vrt.ChooseFree(3, "what happens during the activation")
+	kinds := []string{"activate-adds-a-child", "another-object-removed-meanwhile", "another-object-added-meanwhile"}
+	x.log = kinds[kind] + ";"
+	vrt.Explore()
+	p, child, other := probe.New("P"), probe.New("P.child"), probe.New("R")
+	started, gate := make(chan struct{}), make(chan struct{})
+	var pid, childID, otherID uint32
+	var perr, childErr, otherErr error
+	p.OnAct = func(a bus.Activation) {
+		switch kind {
+		case 0:
+			childID, childErr = a.Service.Add(probe.ProbeObject(child))
+		default:
+			close(started)
+			<-gate
+		}
+	}
+	ws := []*vrt.Thread{vrt.GoWorker("adder", func() { pid, perr = x.w.Service.Add(probe.ProbeObject(p)) })}
+	if kind != 0 {
+		ws = append(ws, vrt.GoWorker("meanwhile", func() {
+			<-started
+			if kind == 1 {
+				x.remove(x.objs[0])
+			} else {
+				otherID, otherErr = x.w.Service.Add(probe.ProbeObject(other))
+			}
+			close(gate)
+		}))
+	}
+	vrt.Quiesce()
+	fx.Settle(ws...)
+	vrt.Freeze()
+	echo := func(what string, id uint32, impl *probe.Impl, arg int32) {
+		before := impl.Total()
+		res, err := x.c.Client.Call(nil, x.w.ServiceID, id, 100, fx.Int32(arg))
+		v := int32(0)
+		if err == nil {
+			v, err = fx.ReadInt32(res)
+		}
+		if err != nil || v != probe.EchoResult(arg) {
+			vrt.Failf("live-object-refuses/"+what, "%s (object %d), added %s, does not answer echo(%d): %v (result %d)", what, id, kinds[kind], arg, err, v)
+		} else if impl.Total() != before+1 {
+			vrt.Failf("wrong-object-invoked/"+what, "echo on %s (object %d) was answered but ran %d bodies of its implementation", what, id, impl.Total()-before)
+		}
+	}
+	if perr != nil {
+		vrt.Failf("add-failed", "Service.Add failed (%s): %v", kinds[kind], perr)
+		return
+	}
+	echo("the new object", pid, p, 31)
+	switch kind {
+	case 0:
+		if childErr != nil {
+			vrt.Failf("add-failed/child", "Add from inside Activate failed: %v", childErr)
+			return
+		}
+		if childID == pid {
+			vrt.Failf("id-collision", "the object and the child added by its Activate both received identifier %d", pid)
+		}
+		echo("the child added by Activate", childID, child, 32)
+	case 1:
+		x.call(x.objs[0], 33) // removed during the activation: must stay unreachable
+	case 2:
+		if otherErr != nil {
+			vrt.Failf("add-failed/meanwhile", "Add during another activation failed: %v", otherErr)
+			return
+		}
+		if otherID == pid {
+			vrt.Failf("id-collision", "two objects added at the same time both received identifier %d", pid)
+		}
+		echo("the object added meanwhile", otherID, other, 34)
+	}
+	x.call(x.objs[1], 35)
+	vrt.Quiesce()
+	x.check()
+	// the new object can be removed, once
+	if err := x.w.Service.Remove(pid); err != nil {
+		vrt.Failf("remove-failed", "removing the object added (%s) failed: %v", kinds[kind], err)
+	}
+	vrt.Quiesce()
+	if p.Terminated != 1 {
+		vrt.Failf(fmt.Sprintf("terminate-hook-count/%d", p.Terminated), "the termination hook of the new object ran %d times after its removal", p.Terminated)
+	}
+	if res, err := x.c.Client.Call(nil, x.w.ServiceID, pid, 100, fx.Int32(36)); err == nil {
+		vrt.Failf("removed-object-answers", "the new object answers after its removal (%d bytes)", len(res))
+	}
+	if kind == 0 {
+		echo("the child after its parent's removal", childID, child, 37)
+	}
+	fx.Settle()
+	vrt.Observe("%s", x.log)
+}
+
 // clientObjects: objects added to a client-side service reference.
 //   - nested: an object adds a child from its Activate
 //   - add-add: two concurrent Add
@@ -682,6 +786,8 @@ func init() {
 		Doc: "the termination hook of an object removes another object of the service (Remove or remote terminate): both hooks run once, the removal returns, the others answer"})
 	reg.Register(&reg.Scenario{Property: "C16", Name: "slow-termination-hook", Body: hookSlow, Quick: 1, Thorough: 2,
 		Doc: "while the termination hook of a removed object is still running, the other objects answer and the removed one answers with an error"})
+	reg.Register(&reg.Scenario{Property: "C16", Name: "activation-window", Body: activationWindow, Quick: 1, Thorough: 2,
+		Doc: "while Service.Add runs the new object's Activate (service lock released): the Activate adds a child / another object is removed / another object is added; afterwards every live object answers with its own implementation, the removed one stays unreachable, the new object can be removed once"})
 	reg.Register(&reg.Scenario{Property: "C16", Name: "client-objects-nested-add", Body: clientObjects("nested", false), Quick: 1, Thorough: 2,
 		Doc: "client-side service reference: an object adds a child from its Activate, then another Add; identifiers unique, each callable, removal of one"})
 	reg.Register(&reg.Scenario{Property: "C16", Name: "client-objects-add-add", Body: clientObjects("add-add", true), Quick: 2, Thorough: 3,
